@@ -27,8 +27,12 @@ type Sign struct {
 func (s Sign) String() string {
 	unixTime := s.Timestamp.Unix()
 	_, offsetSec := s.Timestamp.Zone()
-	offsetHour := offsetSec / 3600
-	offsetMinute := (offsetSec / 60) % 60
+	absOffsetSec := offsetSec
+	if absOffsetSec < 0 {
+		absOffsetSec = -absOffsetSec
+	}
+	offsetHour := absOffsetSec / 3600
+	offsetMinute := (absOffsetSec / 60) % 60
 	var posNegSign string
 	if offsetSec >= 0 {
 		posNegSign = "+"
@@ -157,6 +161,7 @@ func readSign(signString string) (Sign, error) {
 		if _, err := fmt.Sscanf(offsetString, "-%02d%02d", &offsetHour, &offsetMinute); err != nil {
 			return Sign{}, fmt.Errorf("%w: %s", ErrInvalidCommitObject, err)
 		}
+		offsetHour, offsetMinute = -offsetHour, -offsetMinute
 	}
 	location := time.FixedZone(" ", 3600*offsetHour+60*offsetMinute)
 	timestamp := time.Unix(unixTime, 0).In(location)
